@@ -7,7 +7,7 @@ import (
 	"github.com/markusressel/fan2go/internal/zzv"
 )
 
-//zzv:bound K1 = the real persistence layer (Save/Load/Delete of RPM-curve data and PWM maps, each opening and closing the database) on a database holding any subset of the six entries of three fans (64 pre-states, built with the real save functions, contents symbolic), then one operation - save (new symbolic content), load or delete, of either kind, on any of the three fans (18 operations): the operation reports what the picture says (load: the stored content or 'not found'; delete: no error whether or not the entry exists; save: no error), and afterwards all six entries read back as the picture says: the touched entry changed as stated, the other five unchanged. One step from every reachable pre-state, so sequences of any length are covered for this shape of database
+//zzv:bound K1 = the real persistence layer (Save/Load/Delete of RPM-curve data and PWM maps, each opening and closing the database) on a database holding any subset of the six entries of three fans (64 pre-states, built with the real save functions, contents symbolic), then one operation - save (new symbolic content), load or delete, of either kind, or a save of the empty map, on any of the three fans (24 operations): the operation reports what the picture says (load: the stored content or 'not found'; delete: no error whether or not the entry exists; save: no error), and afterwards all six entries read back as the picture says: the touched entry changed as stated, the other five unchanged. One step from every reachable pre-state, so sequences of any length are covered for this shape of database
 //zzv:bound K2 = an undecodable value under any one of the six keys (others valid): loading it reports no data and no crash, a second load reports 'not found' (the entry was discarded), the other five entries are unchanged, and a save over it works
 //zzv:outside the fidelity of the JSON encoding itself (encoding/json round-trips map[int]int and map[int]float64: assumed, Marshal/Unmarshal are an opaque blob model), so negative keys, fractional and huge values add nothing here; durability and atomicity under SIGKILL (bbolt's own guarantee: the model commits a transaction entirely or not at all by construction); more than three fans; bbolt.Open failures (lock timeout, unreadable file)
 //zzv:stub go.etcd.io/bbolt is replaced by a model of its documented API contract (named buckets, ordered byte-string keys, Update all-or-nothing, Cursor.Seek = first key >= argument); encoding/json.Marshal / Unmarshal of maps are an opaque blob that decodes to an equal map of the same type and nothing else decodes
@@ -15,7 +15,11 @@ import (
 
 func zzOperation(w *zzWorld, label string) {
 	fan := zzv.Choice("fan", 3)
-	switch zzv.Choice("operation", 6) {
+	switch zzv.Choice("operation", 8) {
+	case 6:
+		zzv.Assert(w.saveEmptyData(fan) == nil, label+".save_empty_data_succeeds")
+	case 7:
+		zzv.Assert(w.saveEmptyMap(fan) == nil, label+".save_empty_map_succeeds")
 	case 0:
 		zzv.Assert(w.saveData(fan, zzTag("newData")) == nil, label+".save_data_succeeds")
 	case 1:
